@@ -868,6 +868,15 @@ def r_edge(prog, tier):
     for (_, v) in name_defs(f, tl):
         if isinstance(v, ast.BinOp) and isinstance(v.op, ast.Sub) and unparse(v.right) != '1':
             bad_neighbour = '`%s = %s` is not (first token of the span) - 1' % (tl, unparse(v))
+    # min / max the wrong way round: the right neighbour follows the LAST token of the span, the left one precedes the FIRST
+    for (which_, nm_, want_, wrong_) in (('right', tr, 'max', 'min'), ('left', tl, 'min', 'max')):
+        for (_, v) in name_defs(f, nm_):
+            if isinstance(v, ast.BinOp) and isinstance(v.left, ast.Call) and isinstance(v.left.func, ast.Name) \
+                    and v.left.func.id == wrong_ and unparse(v.right) == '1':
+                bad_neighbour = '`%s = %s`: the %s neighbour is taken next to the %s token of the span (`%s`), it belongs next to the %s ' \
+                                'one (`%s`): for a span of more than one token it lies inside the span or its gap' % (
+                                    nm_, unparse(v), which_, 'first' if wrong_ == 'min' else 'last', wrong_,
+                                    'last' if want_ == 'max' else 'first', want_)
     shape = len(tld) == 1 and tld[0].startswith('min(') and tld[0].endswith(') - 1') and \
         all(d.startswith('max(') and d.endswith(') + 1') for d in trd) and len(trd) >= 1
     ok = True if (terms_ok and lo and hi and shape) else None
